@@ -766,6 +766,17 @@ type c11Call struct {
 	prelude   string // statements before the call (same Exec)
 }
 
+// srcDeferred: the same call made by a defer statement of a function invoked
+// right away: the Go function must receive exactly the same arguments (the
+// results of a deferred call are discarded).
+func (k *c11Call) srcDeferred() string {
+	saved := k.prelude
+	k.prelude = ""
+	call := k.src()
+	k.prelude = saved
+	return k.prelude + "func() {\n defer " + call + "\n return 0\n}()"
+}
+
 func (k *c11Call) src() string {
 	var parts []string
 	for _, a := range k.pre {
@@ -973,11 +984,12 @@ func (k *c11Call) bugModelSpread() (outcome string, args []reflect.Value) {
 }
 
 type c11Verdict struct {
-	failure string // "" = held
-	detail  string
-	ex      c11Expect
-	out     ank.Out
-	src     string
+	deferred bool
+	failure  string // "" = held
+	detail   string
+	ex       c11Expect
+	out      ank.Out
+	src      string
 }
 
 const c11FindingSpread = "finding:fixed-spread-list-overwritten"
@@ -995,7 +1007,12 @@ func c11RenderArgs(args []reflect.Value) []string {
 func (k *c11Call) run(c *wk.Case, e *env.Env) c11Verdict {
 	ex := k.expect()
 	src := k.src()
-	vd := c11Verdict{ex: ex, src: src}
+	deferred := false
+	if c.Rng.Intn(6) == 0 {
+		deferred = true
+		src = k.srcDeferred()
+	}
+	vd := c11Verdict{ex: ex, src: src, deferred: deferred}
 	rec := k.rec
 	rec.calls, rec.args, rec.recv, rec.method = 0, nil, nil, ""
 	c11Cur = rec
@@ -1102,6 +1119,8 @@ func (k *c11Call) run(c *wk.Case, e *env.Env) c11Verdict {
 	}
 	// results
 	switch nOut := k.ft.NumOut(); {
+	case deferred:
+		// the results of a deferred call are discarded
 	case nOut == 0:
 		// UNSPECIFIED: the script value of a call without results
 	case nOut == 1:
